@@ -591,6 +591,10 @@ def run(prog: Program, res: Result) -> None:  # noqa: PLR0912, PLR0915
     from checks.C17 import check_line_searches
 
     check_line_searches(prog, res, "C15.R8")
+    res.rule("C15.R10", "the line number of a message is computed over the same pieces as the character offset it is compared with: a function that sums line lengths splits with splitlines(keepends=True) and adds nothing per line (shared with C17.R5) - otherwise the reported line drifts by one character per preceding line, a translator comment is detached, and the search raises ValueError near the end of the source")
+    from checks.C17 import check_line_model
+
+    check_line_model(prog, res, "C15.R10")
 
 
     # ------------------------------------------------------------------ R9 extraction never fails: locals are bound before use
